@@ -203,6 +203,18 @@ func (w *c06World) judgeProposal(r reporter, block *types.Block, parts *types.Pa
 		}
 		r.Outcome("proposer:over-max-bytes")
 	}
+	// --- the data budget: "fits the size limits for headers within the header size budget" is guaranteed by reaping no more
+	// transaction bytes than the block limit leaves when the header, the commit it carries (every slot, signed or absent) and the
+	// evidence take their maximal encoded sizes; a proposer that reaps more produces an oversized block for some in-budget header
+	if !over {
+		var D int64
+		if err, _ := c06Safe(func() error { D = types.MaxDataBytes(maxBytes, block.Evidence.ByteSize(), len(block.LastCommit.Signatures)); return nil }); err == nil {
+			if used := types.ComputeProtoSizeForTxs(block.Txs); used > D {
+				w.fail("state/execution.go:CreateProposalBlock:transactions-exceed-the-data-budget",
+					fmt.Sprintf("%s: the block carries %d bytes of transactions; with %d commit slots and %d bytes of evidence the block limit leaves %d", ctx, used, len(block.LastCommit.Signatures), block.Evidence.ByteSize(), D))
+			}
+		}
+	}
 	// --- the block must pass the check, on the proposer and on a receiver that gets it over the wire
 	err1, _ := c06Safe(func() error { return w.r1.exec.ValidateBlock(S, block) })
 	b2, rx, rxBytes, werr := c06Wire(block, types.BlockPartSizeBytes)
